@@ -1392,3 +1392,9 @@ M('C19-twin-malformed-percent-format', 'C19', AUTH,
   "        message = \"[{status_code}] Malformed error message: '{response_text}'\"\n        message = message.format(status_code=str(res.status_code),\n                                 response_text=res.text)\n",
   "        message = \"[%s] Malformed error message: '%s'\" % (\n            str(res.status_code), res.text)\n",
   expect='silent')
+
+# wave 13: R20.5 operand guard
+M('C20-vector-add-guard-narrowed', 'C20', TUTIL,
+  "    def __add__(self, other):\n        return NotImplemented if not isinstance(other, Vector) else \\",
+  "    def __add__(self, other):\n        return NotImplemented if not isinstance(other, type(self)) else \\",
+  rule='R20.5')
